@@ -177,6 +177,7 @@ func checkC11(c *Ctx) {
 	// generation learns (a cached copy, a remembered path) is kept in a package-level variable for the next
 	c.Rule("C11.R3.no-run-state", "the generator writes its package-level variables only at initialisation or under the template repository's lock (reviewed exceptions)", 5)
 	checkGlobalStores(c, "C11.R3.no-run-state", []*packages.Package{gen})
+	checkCompleteCopies(c, "C11.R2.complete-copies", gen)
 	checkImportsExplicit(c, "C11.R4.imports-explicit", gen)
 }
 
